@@ -141,7 +141,7 @@ def run_shard(spec, seed, cases, workdir, extra_args=()):
         rc, out = sh(cmd, cwd=ROOT, timeout=spec.get("timeout", 3000))
     except subprocess.TimeoutExpired:
         return {"seed": seed, "harness_rc": -9, "harness_out": "TIMEOUT of harness " + " ".join(cmd), "diffs": [], "oracle": ["HARNESS TIMEOUT (hang) " + " ".join(cmd)], "lines": 0, "stats": {}, "samples": [], "cmd": cmd}
-    r = {"seed": seed, "harness_rc": rc, "harness_out": out[-2000:], "diffs": [], "oracle": [], "lines": 0, "stats": {}, "samples": [], "cmd": cmd, "workdir": workdir}
+    r = {"seed": seed, "harness_rc": rc, "harness_out": out[-2000:], "diffs": [], "oracle": [], "lines": 0, "stats": {}, "samples": [], "cmd": cmd, "workdir": workdir, "mode": spec.get("mode")}
     if rc != 0:
         r["oracle"].append(f"HARNESS CRASH rc={rc}: {out[-600:]}")
         return r
@@ -346,7 +346,8 @@ def main():
             for d in r["diffs"]:
                 # a disagreement on a protocol line kind that another property is about (e.g. a `prove` line
                 # in C01's run) is that property's business
-                if klines and d["op"] and d["op"].split(" ")[0] not in klines and not d["op"].startswith("<"):
+                # (the filter is about the API-history protocol; the unit-level differentials of a property are its own throughout)
+                if klines and r.get("mode") == "api" and d["op"] and d["op"].split(" ")[0] not in klines and not d["op"].startswith("<"):
                     other_k += 1
                 elif d["impl"].startswith("panic") and not d["model"].startswith("panic"):
                     # the real code panics on an input for which the specification has an answer: that input is a
